@@ -73,6 +73,10 @@ func check(c Case, o *vf.Obs) error {
 	if parseStatus == solver.Indet && st.NbDecisions > 0 {
 		o.Nontrivial()
 	}
+	if c.Family == "propagation-chain" && len(pb.Units) >= 3 {
+		o.Class("parse-units>=3")
+		o.Nontrivial() // this family is about parse-time simplification: non-trivial = >=3 facts derived while parsing
+	}
 	if res.Status != solver.Sat && res.Status != solver.Unsat {
 		return fmt.Errorf("Solve returned %v, neither Sat nor Unsat", res.Status)
 	}
@@ -169,12 +173,26 @@ func genMid(t *rapid.T) Case {
 	return c
 }
 
+// genChain: deep parse-time unit propagation in every clause order.
+func genChain(t *rapid.T) Case {
+	var c Case
+	c.N, c.Clauses = gen.PropagationChain(t, 2, 12)
+	c.Family = "propagation-chain"
+	c.Entry, c.Cert, c.NbMax = genConfig(t, c.N)
+	return c
+}
+
 // genHard: instances that need many conflicts although n <= 20, so that clause-database
 // reduction (limit n+1) happens under the truth-table oracle: random parity systems and
 // pigeonhole formulas, optionally mixed with a few random clauses.
 func genHard(t *rapid.T) Case {
 	var c Case
-	switch rapid.IntRange(0, 2).Draw(t, "family") {
+	switch rapid.IntRange(0, 3).Draw(t, "family") {
+	case 3: // many binary clauses: learned clauses are short, with low LBD, and often binary themselves
+		n := gen.Uniform(t, 16, 20, "n")
+		cls := gen.KSAT(t, n, gen.Uniform(t, n, 16*n/10, "m2"), 2)
+		cls = append(cls, gen.KSAT(t, n, gen.Uniform(t, 2*n, 3*n, "m3"), 3)...)
+		c = Case{N: n, Clauses: cls, Family: "mixed-2-3-sat"}
 	case 0:
 		n := gen.Uniform(t, 14, 20, "n")
 		m := gen.Uniform(t, n-2, n+6, "m")
@@ -307,14 +325,18 @@ func init() {
 			Rule: "n in 1..10, 0..40 clauses of length 0..5 with duplicate literals, tautologies, units, empty clauses, unused declared variables; entry ParseSlice|ParseSliceNb|ParseCNF x certificate on/off x learned-clause limit {default,n+1,n+4,2n+1}; truth-table oracle; non-trivial = not decided at parse time and >=1 decision",
 		},
 		vf.Sub[Case]{
+			Name: "propagation-chains", Quick: 8000, Thorough: 100000, Gen: genChain, Check: check, Floor: 0.4,
+			Rule: "formulas whose unit propagation runs deep (hidden assignment, 1-2 unit clauses, implication clauses that become unit one after the other, optional falsified clause), clause and literal order shuffled, units sometimes written with a repeated literal; n in 2..12; truth-table oracle; non-trivial = >=3 facts derived at parse time, or the general rule",
+		},
+		vf.Sub[Case]{
 			Name: "threshold-3sat-n14-20", Quick: 1500, Thorough: 20000, Gen: genMid, Check: check, Floor: 0.9,
 			Classes: map[string]float64{"conflicts>0": 0.8},
 			Rule:    "uniform 3-SAT, distinct variables per clause, n in 14..20, ratio 4.1..4.6, lowered learned-clause limit in most cases; truth-table oracle (2^n assignments); non-trivial as above",
 		},
 		vf.Sub[Case]{
-			Name: "hard-small-xor-php", Quick: 1200, Thorough: 15000, Gen: genHard, Check: check, Floor: 0.8,
-			Classes: map[string]float64{"conflicts>=20": 0.15, "reduceDB>0": 0.08},
-			Rule:    "random 3-parity systems (n in 14..20, about n constraints, 4 clauses each) and pigeonhole formulas PHP(4,3)/PHP(5,4) (variables renamed, polarities flipped, clauses shuffled, sometimes one pigeon dropped), plus 0..3 random clauses; learned-clause limit n+1..n+4 in 80% so clause-database reduction happens under the truth-table oracle; non-trivial as above",
+			Name: "hard-small-xor-php", Quick: 1600, Thorough: 20000, Gen: genHard, Check: check, Floor: 0.8,
+			Classes: map[string]float64{"conflicts>=20": 0.12, "reduceDB>0": 0.06},
+			Rule:    "random 3-parity systems (n in 14..20, about n constraints, 4 clauses each) and pigeonhole formulas PHP(4,3)/PHP(5,4), mixes of random 2- and 3-clauses at n 16..20 (variables renamed, polarities flipped, clauses shuffled, sometimes one pigeon dropped), plus 0..3 random clauses; learned-clause limit n+1..n+4 in 80% so clause-database reduction happens under the truth-table oracle; non-trivial as above",
 		},
 		vf.Sub[Case]{
 			Name: "search-heavy-3sat", Quick: 250, Thorough: 2500, Gen: genHeavy, Check: check, Floor: 0.9,
